@@ -71,7 +71,7 @@ PROPS = {
         "assumptions": [],
     },
     "C12": {
-        "units": [("fixer", r"parse|with_transform|from_str"), "deserialize_env", ("rule_core", r"do_match")],
+        "units": [("fixer", r"parse|with_transform|from_str"), "deserialize_env", ("rule_core", r"do_match"), "check_var"],
         "kani": [],
         "decided": ["Fixer::parse (string and object form): every key of `transform` is a Transformed slot of the fix template"],
         "not_decided": ["check_var_*, TopologicalSort (planned), run-time replacement of slots (C07)"],
